@@ -62,45 +62,46 @@ def make_agent(algo: str, family: str = "vector", seed: int = 0, index: int = 0,
     nc = net_config(family)
     hp = hp if hp is not None else hp_config(algo)
     pf = kw.pop("policy_freq", 1)
+    lr, lr_actor, lr_critic = kw.pop("lr", 1e-3), kw.pop("lr_actor", 1e-3), kw.pop("lr_critic", 2e-3)
     common = dict(index=index, hp_config=hp, net_config=nc)
     common.update(kw)
     if algo == "DQN":
         from agilerl.algorithms.dqn import DQN
-        return DQN(osp, spaces.Discrete(3), batch_size=8, lr=1e-3, tau=0.5, **common)
+        return DQN(osp, spaces.Discrete(3), batch_size=8, lr=lr, tau=0.5, **common)
     if algo == "RainbowDQN":
         from agilerl.algorithms.dqn_rainbow import RainbowDQN
-        return RainbowDQN(osp, spaces.Discrete(3), batch_size=8, lr=1e-3, tau=0.5, num_atoms=5, v_min=-2, v_max=2, **common)
+        return RainbowDQN(osp, spaces.Discrete(3), batch_size=8, lr=lr, tau=0.5, num_atoms=5, v_min=-2, v_max=2, **common)
     if algo == "CQN":
         from agilerl.algorithms.cqn import CQN
-        return CQN(osp, spaces.Discrete(3), batch_size=8, lr=1e-3, tau=0.5, **common)
+        return CQN(osp, spaces.Discrete(3), batch_size=8, lr=lr, tau=0.5, **common)
     if algo == "DDPG":
         from agilerl.algorithms.ddpg import DDPG
-        return DDPG(osp, spaces.Box(-1.0, 1.0, (2,), dtype=np.float32), batch_size=8, lr_actor=1e-3, lr_critic=2e-3, tau=0.5,
+        return DDPG(osp, spaces.Box(-1.0, 1.0, (2,), dtype=np.float32), batch_size=8, lr_actor=lr_actor, lr_critic=lr_critic, tau=0.5,
                     policy_freq=1, share_encoders=False, **common)
     if algo == "TD3":
         from agilerl.algorithms.td3 import TD3
-        return TD3(osp, spaces.Box(-1.0, 1.0, (2,), dtype=np.float32), batch_size=8, lr_actor=1e-3, lr_critic=2e-3, tau=0.5,
+        return TD3(osp, spaces.Box(-1.0, 1.0, (2,), dtype=np.float32), batch_size=8, lr_actor=lr_actor, lr_critic=lr_critic, tau=0.5,
                    policy_freq=pf, share_encoders=False, **common)
     if algo == "PPO":
         from agilerl.algorithms.ppo import PPO
-        return PPO(osp, spaces.Discrete(3), batch_size=8, lr=1e-3, update_epochs=1, share_encoders=False, **common)
+        return PPO(osp, spaces.Discrete(3), batch_size=8, lr=lr, update_epochs=1, share_encoders=False, **common)
     if algo == "NeuralUCB":
         from agilerl.algorithms.neural_ucb_bandit import NeuralUCB
-        return NeuralUCB(osp, spaces.Discrete(3), batch_size=8, lr=1e-3, **common)
+        return NeuralUCB(osp, spaces.Discrete(3), batch_size=8, lr=lr, **common)
     if algo == "NeuralTS":
         from agilerl.algorithms.neural_ts_bandit import NeuralTS
-        return NeuralTS(osp, spaces.Discrete(3), batch_size=8, lr=1e-3, **common)
+        return NeuralTS(osp, spaces.Discrete(3), batch_size=8, lr=lr, **common)
     agent_ids = ["agent_0", "agent_1"]
     if algo in ("MADDPG", "MATD3"):
         mod = __import__(f"agilerl.algorithms.{algo.lower()}", fromlist=[algo])
         cls = getattr(mod, algo)
         extra = {"policy_freq": pf} if algo == "MATD3" else {}
         return cls([osp for _ in agent_ids], [spaces.Box(-1.0, 1.0, (2,), dtype=np.float32) for _ in agent_ids], agent_ids=agent_ids,
-                   batch_size=8, lr_actor=1e-3, lr_critic=2e-3, tau=0.5, **extra, **common)
+                   batch_size=8, lr_actor=lr_actor, lr_critic=lr_critic, tau=0.5, **extra, **common)
     if algo == "IPPO":
         from agilerl.algorithms.ippo import IPPO
         return IPPO([osp for _ in agent_ids], [spaces.Discrete(3) for _ in agent_ids], agent_ids=agent_ids,
-                    batch_size=8, lr=1e-3, update_epochs=1, **common)
+                    batch_size=8, lr=lr, update_epochs=1, **common)
     raise ValueError(algo)
 
 
